@@ -2,6 +2,7 @@ CONSTANTS
   KDoms <- KDomsQuick
   KMax = 1
   MaxSteps = 3
+  WithObs = FALSE
   Kinds = {"pos", "fail", "cut", "ask"}
 INIT Init
 NEXT Next
